@@ -11,7 +11,7 @@ import sys
 import time
 
 VERIF = os.path.dirname(os.path.dirname(os.path.abspath(__file__)))
-REPO = '/repo'
+REPO = os.environ.get('SEED_REPO', '/repo')   # a scratch clone may be used while other work reads /repo
 
 
 def sh(cmd, **kw):
@@ -27,7 +27,7 @@ def run_checks(ids, tier='quick'):
     out = {}
     for cid in ids:
         t = time.time()
-        p = sh(f'cd {VERIF} && ./check {cid} --tier {tier}', timeout=3600)
+        p = sh(f'cd {VERIF} && JESSE_REPO={REPO} ./check {cid} --tier {tier}', timeout=5400)
         v = [l for l in p.stdout.split('\n') if l.startswith('VIOLATION')]
         out[cid] = {'rc': p.returncode, 'violation': v[0] if v else None, 'wall_s': round(time.time() - t, 1)}
         if v and 'replay=' in v[0]:
